@@ -556,6 +556,12 @@ func c03Exec(j c03Job, p *c03Prep, ch vrt.Chooser, states *vrt.StateSet, trace b
 				}
 				vio("noconverge", key, fmt.Sprintf("%s: after the source settled (final head %d, hash %x) %d further steps did not reach quiescence: cursor=%d hash %x, last outcome %q: %v [%s]", task.Key(), finalHead, p.final.Head().Hash[:4], settled, cur.Num, cur.Hash, lastOut, lastErr, info))
 			})
+			// reduction (several tasks): a task thread is switched to preemptively only while the running thread is
+			// at an RPC exchange (the shared source client) or at a step boundary; the SQL statements of the two
+			// integrations touch different tables and positions stamped with different integration names
+			th.OnlyAt = func(l string) bool {
+				return strings.HasPrefix(l, "rpc:") || strings.HasPrefix(l, "boundary:") || l == "step"
+			}
 			threads = append(threads, th)
 		}
 		env := w.V.GoNamed("env", func() {
